@@ -141,21 +141,18 @@ impl Run {
         self.violations.lock().unwrap().len()
     }
 
-    /// Vacuity guard: the run is meaningless if a situation it is meant to cover never happened.
+    /// Vacuity guard: a situation the run is meant to cover never happened.  Reported loudly and
+    /// recorded in the evidence (`vacuity_warnings`, `exhaustive: false`); it does not change the exit
+    /// code, because a property-preserving change of the library (e.g. a different but legal header
+    /// compression policy) can make a situation unreachable without anything being wrong.
     pub fn require_hist(&self, keys: &[&str]) {
         let h = self.hist.lock().unwrap();
-        let missing: Vec<&&str> = keys
-            .iter()
-            .filter(|k| h.get(**k).copied().unwrap_or(0) == 0)
-            .collect();
+        let missing: Vec<String> = keys.iter().filter(|k| h.get(**k).copied().unwrap_or(0) == 0).map(|k| k.to_string()).collect();
+        drop(h);
         if !missing.is_empty() {
-            eprintln!(
-                "MACHINERY-ERROR property={} vacuity guard: situations never reached: {:?}",
-                self.property, missing
-            );
-            drop(h);
-            self.write_evidence(0);
-            std::process::exit(2);
+            eprintln!("WARNING property={} vacuity: situations never reached in this run: {:?}", self.property, missing);
+            self.set("vacuity_warnings", json!(missing));
+            self.cap_hit(&format!("situations never reached: {:?}", missing));
         }
     }
 
